@@ -17,7 +17,7 @@ import (
 
 func init() {
 	Registry["C18"] = Prop{
-		Patterns: []string{"./modules"},
+		Patterns: []string{"./modules", "./services"},
 		Run:      runC18,
 		Explanation: "Decides structural necessary conditions of 'modules initialise, start and stop in dependency order' in package modules: (R1) the wrapped service is started only after the loop over all start dependencies completed, each non-nil dependency is awaited and a failed dependency aborts the start; (R2) the wrapped service is stopped only after every dependant has been awaited; " +
 			"(R3) initFn runs only for modules not marked initialised and every non-error pass of the loop marks the module in the same map that guards the skip (exactly-once), over orderedDeps(name)+name; (R4) AddDependency appends only after the cycle check over every new dependency (error when the module is among the new dependency's transitive dependencies); (R5) failures propagate (run returns the service's FailureCase); " +
@@ -32,6 +32,7 @@ func runC18(c *core.Ctx) {
 	c.Rule("R4", "cycle check precedes dependency insertion", 2)
 	c.Rule("R5", "failure propagation", 1)
 	c.Rule("R6", "dependency queries read only the dependency graph and never write through an alias of it", 5)
+	c.Rule("R8", "the await primitive the dependency check relies on answers nil ⇔ the service is in the awaited state when the waiter wakes up", 1)
 	c.Rule("R7", "orderedDeps: a module is placed only after each of its dependencies has been placed (inductive invariant of the ordering loop)", 3)
 	pkg := c.Prog.Pkg("modules")
 	if pkg == nil {
@@ -350,6 +351,7 @@ func runC18(c *core.Ctx) {
 		c.Miss("R5", "func=moduleService.run", "not found")
 	}
 	// ---- R7
+	c18Await(c)
 	c18Order(c, pkg)
 	// ---- R6 purity of dependency queries
 	mgr := an.LookupType(pkg, "Manager")
@@ -641,4 +643,72 @@ func c18Order(c *core.Ctx, pkg *packages.Package) {
 		return true
 	})
 	c.Check(okFlag && nTrue == 1, "R7", "func=orderedDeps:flag", pl.as.Pos(), fmt.Sprintf("the 'placed' flag of a name is raised exactly where that name is appended to the order and never lowered afterwards %v", detail), 1)
+}
+
+// c18Await (R8): moduleService.start decides "my dependency is running" by AwaitRunning returning nil.
+// BasicService.awaitState must therefore answer nil exactly when the state read after the wake-up equals
+// the awaited one — whatever else it looks at (a dependency that was running once and has failed since
+// is not running).
+func c18Await(c *core.Ctx) {
+	pkg := c.Prog.Pkg("services")
+	if pkg == nil {
+		c.Miss("R8", "pkg=services", "not loaded")
+		return
+	}
+	fn := an.FindFunc(pkg, "BasicService.awaitState")
+	if fn == nil {
+		c.Miss("R8", "func=BasicService.awaitState", "not found")
+		return
+	}
+	c.Analysed(fn.String())
+	g := fn.Graph()
+	// the wake-up branch: the comm clause that receives from the waiters' channel (p2)
+	var wake *ast.CommClause
+	fn.InspectShallow(func(n ast.Node) bool {
+		if cc, ok := n.(*ast.CommClause); ok && cc.Comm != nil {
+			if ch := commRecv(cc.Comm); ch != nil && fn.Canon(ch) == "p2" {
+				wake = cc
+			}
+		}
+		return true
+	})
+	if wake == nil || len(wake.Body) == 0 {
+		c.Undec("R8", "func=BasicService.awaitState", fn.Pos(), "the branch that receives from the waiters' channel was not found")
+		return
+	}
+	var nils, errs []*ast.ReturnStmt
+	for _, b := range g.Blocks {
+		if r := an.ReturnOf(b); r != nil && an.InNode(wake, r) && len(r.Results) == 1 {
+			if fn.Canon(r.Results[0]) == "nil" {
+				nils = append(nils, r)
+			} else {
+				errs = append(errs, r)
+			}
+		}
+	}
+	if len(nils) == 0 || len(errs) == 0 {
+		c.Undec("R8", "func=BasicService.awaitState", fn.Pos(), fmt.Sprintf("expected a nil return and an error return after the wake-up, found %d and %d", len(nils), len(errs)))
+		return
+	}
+	var targets []an.Loc
+	var names []string
+	for _, r := range nils {
+		targets = append(targets, g.Locate(r))
+		names = append(names, fmt.Sprintf("return nil (line %d)", c.Prog.Fset.Position(r.Pos()).Line))
+	}
+	for _, r := range errs {
+		targets = append(targets, g.Locate(r))
+		names = append(names, "return error")
+	}
+	// every path ends in one of these returns, so "no nil when not reached" and "no error when reached" give the equivalence
+	t := an.Table{G: g, From: g.Locate(wake.Body[0]), FreeUnknown: true, MayOnly: true, Atoms: []an.Atom{{Name: "reached", Values: []string{"T", "F"}}},
+		Binder: &an.Binder{Fn: fn, Eq: map[string]string{"recv.State()|p1": "reached"}}, Targets: targets, Names: names,
+		Want: func(r an.Row, i int) an.Tri {
+			if (i < len(nils)) == (r["reached"] == "F") {
+				return an.F
+			}
+			return an.U
+		}}
+	res := t.Run()
+	c.Check(res.OK(), "R8", "func=BasicService.awaitState", fn.Pos(), "after the wake-up: nil ⇔ State() == awaited state, independent of anything else: "+res.Summary(), res.Rows)
 }
